@@ -18,7 +18,8 @@ TraceInit == Init /\ l = 1
 Has2(e, f) == f \in DOMAIN e
 LastStep == hist'[Len(hist')]
 
-PostOk(e) == ViewOf(st'[e.n], e.n, clock') = e.post
+\* (server-level traces log the state only at the end of a round: intermediate events carry no post)
+PostOk(e) == Has2(e, "post") => ViewOf(st'[e.n], e.n, clock') = e.post
 OutOk(e) == IF Has2(e, "out") THEN Has2(LastStep, "out") /\ LastStep.out = e.out
             ELSE ~Has2(LastStep, "out")
 
